@@ -2,7 +2,7 @@
 # re-runs the claimed checks against every stored seeded change (patch applied to /repo, then undone)
 cd /verif
 if [ -n "$(git -C /repo status --porcelain)" ]; then echo "reseed: /repo has uncommitted changes"; exit 3; fi
-for d in seeded/C*/; do
+for d in /verif/seeded/C*/; do
   id=$(basename $d); prop=${id:0:3}
   props=$prop
   [ -f $d/props ] && props=$(cat $d/props)
